@@ -12,6 +12,7 @@ import Driver.OpsFS
 import Driver.OpsBind
 import Driver.OpsAgg
 import Driver.OpsConstruct
+import Driver.OpsRead
 
 open Lean DI DI.Codec
 
@@ -38,6 +39,9 @@ def dispatch (op : String) (a : Json) : Except String Json :=
   | some r => r
   | none =>
   match DI.Ops.constructOp op a with
+  | some r => r
+  | none =>
+  match DI.Ops.readOp op a with
   | some r => r
   | none => .error s!"unknown op {op}"
 
